@@ -120,6 +120,15 @@ def run(db, chk, quad: bool = False) -> None:
     chk.floor("C03.R3-builder", 8)
 
 
+def _scan_loop(f):
+    """the scan: the one for-loop (outside nested functions) in whose body _add_edge is called"""
+    loops = [n for n in walk_no_nested(f) if isinstance(n, ast.For) and any(isinstance(c, ast.Call) and isinstance(c.func, ast.Attribute) and c.func.attr == "_add_edge" for c in ast.walk(n))]
+    # (an outer loop containing the scan is not the scan)
+    inner = [lp for lp in loops if not any(o is not lp and any(x is lp for x in ast.walk(o)) for o in loops) or True]
+    inner = [lp for lp in loops if not any(x is not lp and isinstance(x, ast.For) and x in loops for x in ast.walk(lp))]
+    return inner[0] if len(inner) == 1 else None
+
+
 def _stack_loop(f):
     """(loop, stack variable) : the for-loop in which one local list is both appended to and popped from"""
     for lp in [n for n in ast.walk(f) if isinstance(n, ast.For)]:
@@ -154,7 +163,7 @@ def _scan_semantics(db, chk, mod, f, make_events, root_of, upto=4):
     import copy
     from ..core.interp import Interp
     from ..core.values import Obj
-    lp, stack = _stack_loop(f)
+    lp = _stack_loop(f)[0] or _scan_loop(f)          # the loop that pushes and pops a local stack; else the one loop that adds edges (the stack may live in a helper object)
     where = mod.loc(f)
     if lp is None or not isinstance(lp.iter, ast.Name):
         return None
@@ -176,15 +185,13 @@ def _scan_semantics(db, chk, mod, f, make_events, root_of, upto=4):
     if hit is None:
         return None
     blk, i = hit
-    inits = [k for k in range(i) if isinstance(blk[k], (ast.Assign, ast.AnnAssign)) and any(H.name_id(t) == stack for t in (blk[k].targets if isinstance(blk[k], ast.Assign) else [blk[k].target]))]
-    if not inits:
-        return None
     evname = lp.iter.id
     # the scan's own state: the local containers / constants initialised in front of the loop (the stack among them); everything else there - timers, sorting,
     # checks of the array - belongs to other rules
     def fresh(v):
         return isinstance(v, ast.Constant) or (isinstance(v, (ast.List, ast.Set, ast.Tuple)) and not v.elts) or (isinstance(v, ast.Dict) and not v.keys) or \
-            (isinstance(v, ast.Call) and H.name_id(v.func) in ("set", "list", "dict", "deque") and not v.args and not v.keywords)
+            (isinstance(v, ast.Call) and H.name_id(v.func) in ("set", "list", "dict", "deque") and not v.args and not v.keywords) or \
+            (isinstance(v, ast.Call) and H.name_id(v.func) in mod.classes and all(isinstance(a_, ast.Constant) for a_ in v.args) and all(isinstance(k_.value, ast.Constant) for k_ in v.keywords))          # a small state object
     stmts = [copy.deepcopy(s_) for s_ in blk[:i] if isinstance(s_, (ast.Assign, ast.AnnAssign)) and s_.value is not None and fresh(s_.value)
              and all(isinstance(t, ast.Name) and t.id != evname for t in (s_.targets if isinstance(s_, ast.Assign) else [s_.target]))] + [copy.deepcopy(lp)]
     fn = ast.FunctionDef(name="__scan__", args=ast.arguments(posonlyargs=[], args=[ast.arg(arg="self"), ast.arg(arg=evname)], kwonlyargs=[], kw_defaults=[], defaults=[]),
@@ -231,6 +238,8 @@ def _scan_semantics(db, chk, mod, f, make_events, root_of, upto=4):
 def _loop_discipline(chk, mod, f, open_test_ok, sem=None):
     where = mod.loc(f)
     lp, stack_name = _stack_loop(f)
+    if lp is None and sem is True:
+        return _scan_loop(f)          # the stack lives in a helper object: decided by the abstract runs alone
     if lp is None:
         chk.ob("C03.R3-builder", f"{mod.name}: one scan loop pushing on and popping from a stack", None, where, found="no such loop")
         return None
